@@ -1025,6 +1025,7 @@ func init() {
 		if _, ok := x.P["etms"]; !ok {
 			x.P["etms"] = "150" // the node must stay a follower while its state machine is busy
 		}
-		runPuppetCases(x, x.P.Int("cases", 6), shim.FSMOpts{Seed: x.Seed, ApplyFixUs: x.P.Int("applyus", 60000)}, puppetISWindow)
+		// snapthr=2,snapus=N,applyus=0: the installation waits for a local snapshot (slow Snapshot) instead of an Apply
+		runPuppetCases(x, x.P.Int("cases", 6), shim.FSMOpts{Seed: x.Seed, ApplyFixUs: x.P.Int("applyus", 60000), SnapThreshold: x.P.Int("snapthr", 0), SnapFixUs: x.P.Int("snapus", 0)}, puppetISWindow)
 	}
 }
